@@ -711,4 +711,207 @@ Section Lemmas.
     intros Hc. rewrite group_same_gen. apply grp_gen_total. intros g Hg Hi.
     apply decide_best_total; [exact Hg|]. intros x Hx. apply Hc, Hi, Hx.
   Qed.
+
+  (** ** second merge: [merge_group] taken apart *)
+  Definition is_bnode (s : stmt) : bool := str_eqb (s_type s) c_BNODE_ELEM_TYPE.
+  Definition is_iri (s : stmt) : bool := str_eqb (s_type s) c_IRI_ELEM_TYPE.
+
+  Definition mg_bnode (g : list stmt) : option stmt := last_such is_bnode g.
+  Definition mg_iri (g : list stmt) : option stmt := last_such is_iri g.
+  Definition mg_shapes (cnt : N) (g : list stmt) : list stmt :=
+    sort_desc fa cnt (filter (fun s => negb (is_bnode s) && negb (is_iri s)) g).
+
+  (** the new statement "NONLITERAL" made of a BNode and an IRI statement *)
+  Definition nonlit_merge (b i : stmt) : stmt :=
+    {| s_inv := s_inv b; s_prop := s_prop b; s_types := [c_NONLITERAL_ELEM_TYPE];
+       s_choice := false; s_card := most_general_card (s_card b) (s_card i);
+       s_nocc := (s_nocc b + s_nocc i)%N;
+       s_prob := match s_prob b, s_prob i with
+                 | PRatio x, PRatio y => PSum x y
+                 | _, _ => PSum (s_nocc b) (s_nocc i)
+                 end;
+       s_comments := [] |}.
+
+  Definition mg_dominant (cnt : N) (g : list stmt) : stmt + serr :=
+    match mg_bnode g with
+    | Some b =>
+      match mg_iri g with
+      | Some i =>
+        match mg_shapes cnt g with
+        | [s0] => if N.eqb (s_nocc i + s_nocc b) (s_nocc s0) then inl s0 else inl (nonlit_merge b i)
+        | _ => inl (nonlit_merge b i)
+        end
+      | None =>
+        match mg_shapes cnt g with
+        | s0 :: _ => if N.eqb (s_nocc s0) (s_nocc b) then inl s0 else inl b
+        | [] => inl b
+        end
+      end
+    | None =>
+      match mg_shapes cnt g with
+      | [] => match mg_iri g with Some i => inl i | None => inr SEValue end
+      | s0 :: _ =>
+        match mg_iri g with
+        | None => inl s0
+        | Some i => if N.ltb (s_nocc s0) (s_nocc i) then inl i else inl s0
+        end
+      end
+    end.
+
+  (** the choice ("OR") version of a dominant statement *)
+  Definition choice_of (d : stmt) (tys : list str) : stmt :=
+    {| s_inv := s_inv d; s_prop := s_prop d; s_types := tys; s_choice := true;
+       s_card := s_card d; s_nocc := s_nocc d; s_prob := s_prob d; s_comments := [] |}.
+
+  Definition mg_or_types (d : stmt) (shapes : list stmt) : list str :=
+    if x_allow_redundant_or cfg
+    then (if existsb (same_obj d) shapes then [] else [s_type d]) ++ map s_type shapes
+    else if existsb (same_obj d) shapes then map s_type shapes else [].
+
+  Definition mg_tuned (d : stmt) (shapes : list stmt) : stmt :=
+    if x_disable_or cfg then d
+    else if Nat.ltb 1 (List.length (mg_or_types d shapes)) then choice_of d (mg_or_types d shapes) else d.
+
+  Definition mg_first (g : list stmt) : list stmt :=
+    match mg_bnode g with
+    | Some b => b :: match mg_iri g with Some i => [i] | None => [] end
+    | None => []
+    end.
+
+  Lemma merge_group_unfold cnt g :
+    merge_group fa cfg cnt g =
+    match mg_dominant cnt g with
+    | inr e => inr e
+    | inl d =>
+      add_comments_of cfg (mg_tuned d (mg_shapes cnt g))
+        (mg_first g ++ filter (fun s => negb (same_obj (mg_tuned d (mg_shapes cnt g)) s)) (mg_shapes cnt g))
+    end.
+  Proof. reflexivity. Qed.
+
+  Lemma last_such_some f g s : last_such f g = Some s -> In s g /\ f s = true.
+  Proof. unfold last_such. intros H. apply find_some in H. rewrite <- in_rev in H. exact H. Qed.
+
+  Lemma last_such_none f g : last_such f g = None -> forall s, In s g -> f s = false.
+  Proof. unfold last_such. intros H s Hs. apply (find_none _ _ H). rewrite <- in_rev. exact Hs. Qed.
+
+  Lemma mg_shapes_In cnt g s : In s (mg_shapes cnt g) <-> In s g /\ is_bnode s = false /\ is_iri s = false.
+  Proof.
+    unfold mg_shapes. rewrite sort_desc_In, filter_In, andb_true_iff, !negb_true_iff. tauto.
+  Qed.
+
+  (** the dominant statement is one of the group or the NONLITERAL merge of
+      its (last) BNode and IRI statements *)
+  Inductive dominant_of (g : list stmt) : stmt -> Prop :=
+  | Dom_in d : In d g -> dominant_of g d
+  | Dom_merge b i : In b g -> In i g -> is_bnode b = true -> is_iri i = true ->
+                    dominant_of g (nonlit_merge b i).
+
+  Lemma mg_dominant_spec cnt g d : mg_dominant cnt g = inl d -> dominant_of g d.
+  Proof.
+    unfold mg_dominant.
+    assert (Hsh : forall s0 r, mg_shapes cnt g = s0 :: r -> In s0 g).
+    { intros s0 r E. apply (mg_shapes_In cnt g s0). rewrite E. left; reflexivity. }
+    destruct (mg_bnode g) as [b|] eqn:Eb.
+    - apply last_such_some in Eb. destruct Eb as [Hb Tb].
+      destruct (mg_iri g) as [i|] eqn:Ei.
+      + apply last_such_some in Ei. destruct Ei as [Hi Ti].
+        destruct (mg_shapes cnt g) as [|s0 [|s1 r]] eqn:Es.
+        * intros H; injection H as <-. apply Dom_merge; assumption.
+        * destruct (N.eqb _ _); intros H; injection H as <-; [apply Dom_in; eapply Hsh; reflexivity | apply Dom_merge; assumption].
+        * intros H; injection H as <-. apply Dom_merge; assumption.
+      + destruct (mg_shapes cnt g) as [|s0 r] eqn:Es.
+        * intros H; injection H as <-. apply Dom_in; exact Hb.
+        * destruct (N.eqb _ _); intros H; injection H as <-; apply Dom_in; [eapply Hsh; reflexivity | exact Hb].
+    - destruct (mg_shapes cnt g) as [|s0 r] eqn:Es.
+      + destruct (mg_iri g) as [i|] eqn:Ei; [|discriminate].
+        apply last_such_some in Ei. intros H; injection H as <-. apply Dom_in; tauto.
+      + destruct (mg_iri g) as [i|] eqn:Ei.
+        * apply last_such_some in Ei.
+          destruct (N.ltb _ _); intros H; injection H as <-; apply Dom_in; [tauto | eapply Hsh; reflexivity].
+        * intros H; injection H as <-. apply Dom_in. eapply Hsh; reflexivity.
+  Qed.
+
+  Lemma mg_dominant_total cnt g : g <> [] -> exists d, mg_dominant cnt g = inl d.
+  Proof.
+    intros Hne. unfold mg_dominant.
+    destruct (mg_bnode g) as [b|] eqn:Eb.
+    - destruct (mg_iri g) as [i|]; destruct (mg_shapes cnt g) as [|s0 [|s1 r]];
+        try (eexists; reflexivity); destruct (N.eqb _ _); eexists; reflexivity.
+    - destruct (mg_shapes cnt g) as [|s0 r] eqn:Es.
+      + destruct (mg_iri g) as [i|] eqn:Ei; [eexists; reflexivity|]. exfalso.
+        destruct g as [|x g]; [contradiction|].
+        pose proof (last_such_none _ _ Eb x (or_introl eq_refl)) as Hb.
+        pose proof (last_such_none _ _ Ei x (or_introl eq_refl)) as Hi.
+        assert (Hx : In x (mg_shapes cnt (x :: g))) by (apply mg_shapes_In; split; [left; reflexivity | auto]).
+        rewrite Es in Hx. destruct Hx.
+      + destruct (mg_iri g) as [i|]; [destruct (N.ltb _ _)|]; eexists; reflexivity.
+  Qed.
+
+  (** what [_tune_dominant_constraint_wrt_or_config] returns *)
+  Inductive or_tuned (g : list stmt) (d : stmt) : stmt -> Prop :=
+  | Or_same : or_tuned g d d
+  | Or_choice tys : (1 < List.length tys)%nat -> In (s_type d) tys ->
+                    (forall t, In t tys -> t = s_type d \/ exists x, In x g /\ is_bnode x = false /\ is_iri x = false /\ t = s_type x) ->
+                    or_tuned g d (choice_of d tys).
+
+  Lemma mg_tuned_spec cnt g d : or_tuned g d (mg_tuned d (mg_shapes cnt g)).
+  Proof.
+    unfold mg_tuned. destruct (x_disable_or cfg); [apply Or_same|].
+    destruct (Nat.ltb 1 (List.length (mg_or_types d (mg_shapes cnt g)))) eqn:El; [|apply Or_same].
+    apply Nat.ltb_lt in El. apply Or_choice; [exact El| |].
+    - unfold mg_or_types in *.
+      destruct (existsb (same_obj d) (mg_shapes cnt g)) eqn:Ex.
+      + apply existsb_exists in Ex. destruct Ex as [x [Hx Hs]]. unfold same_obj in Hs.
+        apply andb_true_iff in Hs. destruct Hs as [_ Hs]. apply str_eqb_eq in Hs.
+        assert (In (s_type d) (map s_type (mg_shapes cnt g))) by (rewrite Hs; apply in_map; exact Hx).
+        destruct (x_allow_redundant_or cfg); cbn; assumption.
+      + destruct (x_allow_redundant_or cfg); [left; reflexivity | cbn in El; lia].
+    - intros t Ht. unfold mg_or_types in Ht.
+      assert (Hm : In t (map s_type (mg_shapes cnt g)) ->
+                   exists x, In x g /\ is_bnode x = false /\ is_iri x = false /\ t = s_type x).
+      { intros H. apply in_map_iff in H. destruct H as [x [<- Hx]]. apply mg_shapes_In in Hx. exists x; tauto. }
+      destruct (x_allow_redundant_or cfg); destruct (existsb (same_obj d) (mg_shapes cnt g)); cbn in Ht; auto.
+      + destruct Ht as [<-|Ht]; auto.
+      + destruct Ht.
+  Qed.
+
+  Lemma mg_first_incl g : incl (mg_first g) g.
+  Proof.
+    unfold mg_first. intros x Hx.
+    destruct (mg_bnode g) as [b|] eqn:Eb; [|destruct Hx]. apply last_such_some in Eb.
+    destruct Hx as [<-|Hx]; [tauto|].
+    destruct (mg_iri g) as [i|] eqn:Ei; [|destruct Hx]. apply last_such_some in Ei.
+    destruct Hx as [<-|[]]; tauto.
+  Qed.
+
+  (** Main statement for [merge_group] *)
+  Theorem merge_group_spec cnt g r :
+    merge_group fa cfg cnt g = inl r ->
+    exists d d1 ks, dominant_of g d /\ or_tuned g d d1 /\ core_eq r d1 /\
+                    s_comments r = s_comments d1 ++ ks /\ comments_from g ks.
+  Proof.
+    rewrite merge_group_unfold. destruct (mg_dominant cnt g) as [d|e] eqn:Ed; [|discriminate].
+    intros H. apply add_comments_of_spec in H. destruct H as [Hc [ks [Hk F]]].
+    exists d, (mg_tuned d (mg_shapes cnt g)), ks.
+    split; [apply (mg_dominant_spec cnt); exact Ed|]. split; [apply mg_tuned_spec|].
+    split; [exact Hc|]. split; [exact Hk|].
+    eapply comments_from_F2; [|exact F]. intros x Hx. apply in_app_or in Hx.
+    destruct Hx as [Hx|Hx]; [apply mg_first_incl; exact Hx|].
+    apply filter_In in Hx. destruct Hx as [Hx _]. apply mg_shapes_In in Hx. tauto.
+  Qed.
+
+  (** [merge_group] has two error sites: the empty group ([SEValue], from the
+      missing dominant) and a comment token that cannot be rendered *)
+  Theorem merge_group_total cnt g :
+    g <> [] -> (forall x, In x g -> exists k, comment_of cfg x = inl k) ->
+    exists r, merge_group fa cfg cnt g = inl r.
+  Proof.
+    intros Hne Hc. rewrite merge_group_unfold. destruct (mg_dominant_total cnt g Hne) as [d ->].
+    apply add_comments_of_total. intros x Hx. apply Hc. apply in_app_or in Hx.
+    destruct Hx as [Hx|Hx]; [apply mg_first_incl; exact Hx|].
+    apply filter_In in Hx. destruct Hx as [Hx _]. apply mg_shapes_In in Hx. tauto.
+  Qed.
+
+  Theorem merge_group_nil cnt : merge_group fa cfg cnt [] = inr SEValue.
+  Proof. reflexivity. Qed.
 End Lemmas.
